@@ -113,11 +113,11 @@ def check_r061(fx, rep):
         rep.oblige("or_insert_with" in names or "or_insert" in names, "R06.1", "load-materialises", F.loc(ld["span"]), "Storage::load does not record a generation for a key that was never written: a slot that is only read leaves no trace", sample={"rule": "R06.1", "load": "entry().or_insert_with(unwritten value)"})
 
 
-def check_no_replacement(fx, rep):
+def check_no_replacement(fx, rep, rule="R06.1", targets=None, what="every generation recorded on this path is discarded, so slots that were only touched before this point lose their layout rows", owner_suffix="VMState"):
     """The storage / memory of a state is only ever filled: nothing outside their own constructors replaces the whole object
     (`*state.storage_mut() = Storage::new()`, mem::replace / take / swap on it), which would discard every generation at once."""
     n = 0
-    targets = (STORAGE, MEMORY)
+    targets = targets or (STORAGE, MEMORY)
     for b in fx.fn_bodies():
         if not b.get("hir") or b.get("from_expansion") or b.get("impl_self") in targets:
             continue
@@ -128,7 +128,7 @@ def check_no_replacement(fx, rep):
                 if lty in targets:
                     # constructing a state (struct literal fields) is not an Assign; a plain field initialisation `self.storage = ..`
                     # inside the state's own constructor is allowed
-                    if not ((b.get("impl_self") or "").endswith("VMState") and b.get("name", "").startswith("new")):
+                    if not ((b.get("impl_self") or "").endswith(owner_suffix) and b.get("name", "").startswith("new")):
                         hit = ("assignment", lty)
             if x.get("k") == "Call" and F.strip_generics(F.callee_def(x) or "") in ("std::mem::replace", "core::mem::replace", "std::mem::take", "core::mem::take", "std::mem::swap", "core::mem::swap"):
                 for a in x["args"]:
@@ -137,8 +137,8 @@ def check_no_replacement(fx, rep):
                         hit = (F.callee_def(x).split("::")[-1], aty)
             if hit:
                 n += 1
-                rep.oblige(False, "R06.1", f"replaced:{F.strip_generics(b['def'])}:{hit[1].split('::')[-1]}", F.loc(x["span"]), f"`{b['def']}` replaces the whole `{hit[1]}` of a state ({hit[0]}): every generation recorded on this path is discarded, so slots that were only touched before this point lose their layout rows")
-    rep.inst("R06.1", "no-whole-object-replacement", sample={"rule": "R06.1", "replacements_of_storage_or_memory": n})
+                rep.oblige(False, rule, f"replaced:{F.strip_generics(b['def'])}:{hit[1].split('::')[-1].split('<')[0]}", F.loc(x["span"]), f"`{b['def']}` replaces the whole `{hit[1]}` of a state ({hit[0]}): {what}")
+    rep.inst(rule, "no-whole-object-replacement", sample={"rule": rule, "replacements": n, "of": [t.split("::")[-1] for t in targets]})
 
 
 def check_r062(fx, rep, cg):
